@@ -12,6 +12,9 @@ type WorkSpace struct {
 	state   engine.WorkSpaceState
 	using   bool
 	rootDir string
+	// stopSeq counts the stop/remove/delete requests for this workSpace (guarded by the keeper's
+	// stateLock); a queued plot/mine request is honoured only if none of them came after it
+	stopSeq uint64
 }
 
 // NewWorkSpace loads MassDB from given rootDir with PubKey&BitLength,
